@@ -65,12 +65,28 @@ func c20Jobs(r *R) {
 	}
 	decide := func(n int, ctx vivid.SupervisionContext) vivid.SupervisionDecision { return vivid.SupervisionDecisionRestart }
 	sup := &Spec{Name: "sup", Strategy: vivid.OneForOneStrategy(w.NewMaker("sup", decide))}
-	for i := 0; i < nOwners; i++ {
+	// the third owner is a namesake of the first under another parent (/sup2/j0 next to /sup/j0): jobs are keyed by the
+	// owner's path, not by its name
+	ownerPath := func(o int) string {
+		if o == 2 {
+			return "/sup2/j0"
+		}
+		return fmt.Sprintf("/sup/j%d", o)
+	}
+	for i := 0; i < nOwners && i < 2; i++ {
 		sup.Children = append(sup.Children, &Spec{Name: fmt.Sprintf("j%d", i), OnOther: onOther})
 	}
 	if _, err := w.Spawn(sup); err != nil {
 		r.Fail("C20/harness", "spawn: %v", err)
 		return
+	}
+	if nOwners == 3 {
+		sup2 := &Spec{Name: "sup2", Strategy: vivid.OneForOneStrategy(w.NewMaker("sup2", decide)), Children: []*Spec{{Name: "j0", OnOther: onOther}}}
+		if _, err := w.Spawn(sup2); err != nil {
+			r.Fail("C20/harness", "spawn: %v", err)
+			return
+		}
+		r.Count("namesake-owners-under-different-parents")
 	}
 	sink, _ := w.Spawn(&Spec{Name: "sink", OnOther: onOther})
 	vsimrt.Settle()
@@ -91,7 +107,7 @@ func c20Jobs(r *R) {
 			jdesc = append(jdesc, fmt.Sprintf("job%d owner=j%d kind=%s period=%v sink=%v ref=%q", j.id, o, []string{"once", "loop", "cron", "cron-invalid"}[j.kind], j.period, j.toSink, j.ref))
 		}
 	}
-	ownerRef := func(o int) vivid.ActorRef { return w.RefBy("create", nil, fmt.Sprintf("/sup/j%d", o)) }
+	ownerRef := func(o int) vivid.ActorRef { return w.RefBy("create", nil, ownerPath(o)) }
 	// schedule everything at t = 0 (inside the owners' handlers)
 	sharedSeen := map[int]bool{}
 	for o := 0; o < nOwners; o++ {
